@@ -12,28 +12,140 @@ import Mathlib.Tactic.Ring
 import Mathlib.Tactic.SplitIfs
 namespace Sfw
 
+/-! ### helper lemmas (private) -/
+
+private theorem containsSub_of_infix : ∀ (s sub : Str), sub <:+: s → containsSub s sub = true
+  | [], sub, h => by
+    have : sub = [] := List.infix_nil.mp h
+    subst this; rfl
+  | c :: cs, sub, h => by
+    unfold containsSub
+    rcases List.infix_cons_iff.mp h with hp | hi
+    · rw [List.isPrefixOf_iff_prefix.mpr hp]; rfl
+    · rw [containsSub_of_infix cs sub hi]; exact Bool.or_true _
+
+private theorem trimQuotes_infix (s : Str) : trimQuotes s <:+: s := by
+  unfold trimQuotes
+  simp only
+  generalize (fun c : Char => c == '"' || c == '\'' || c == '`') = q
+  have h1 : s.dropWhile q <:+ s := List.dropWhile_suffix q
+  have h2 : ((s.dropWhile q).reverse.dropWhile q).reverse <+: s.dropWhile q := by
+    rw [← List.reverse_suffix, List.reverse_reverse]
+    exact List.dropWhile_suffix q
+  exact List.IsInfix.trans h2.isInfix h1.isInfix
+
+private theorem mem_dedupStrs : ∀ (l : List Str) (x : Str), x ∈ dedupStrs l → x ∈ l
+  | [], _, h => by simp [dedupStrs] at h
+  | a :: l, x, h => by
+    unfold dedupStrs at h
+    rcases List.mem_cons.mp h with h | h
+    · exact h ▸ List.mem_cons_self
+    · exact List.mem_cons_of_mem _ (mem_dedupStrs l x (List.mem_filter.mp h).1)
+
+private theorem mem_extractPatterns {lits : List Str} {p : Str} (h : p ∈ extractPatterns lits) :
+    ∃ lit ∈ lits, p = trimQuotes lit := by
+  unfold extractPatterns sortStrs at h
+  rw [List.mem_mergeSort] at h
+  have h := mem_dedupStrs _ _ h
+  obtain ⟨lit, hlit, rfl⟩ := List.mem_map.mp (List.mem_filter.mp h).1
+  exact ⟨lit, (List.mem_filter.mp hlit).1, rfl⟩
+
+private theorem mem_alertsOf {H t cands thr tol r} :
+    r ∈ alertsOf H t cands thr tol ↔
+      (∃ s ∈ cands, matchSignature H t s tol = r) ∧ r.conf.ge thr = true := by
+  unfold alertsOf
+  rw [List.mem_mergeSort, List.mem_filter, List.mem_map]
+
+private theorem matchCalls_self (t : Topo) :
+    matchCalls t (sortStrs (t.calls.map (·.1))) = (sortStrs (t.calls.map (·.1)), []) := by
+  have hfound : ∀ r ∈ sortStrs (t.calls.map (·.1)),
+      t.calls.any (fun c => containsSub c.1 r) = true := by
+    intro r hr
+    unfold sortStrs at hr
+    rw [List.mem_mergeSort] at hr
+    obtain ⟨c, hc, rfl⟩ := List.mem_map.mp hr
+    exact List.any_eq_true.mpr ⟨c, hc, containsSub_of_infix _ _ List.infix_rfl⟩
+  unfold matchCalls
+  simp only
+  congr 1
+  · exact List.filter_eq_self.mpr hfound
+  · exact List.filter_eq_nil_iff.mpr (fun r hr => by simp [hfound r hr])
+
+private theorem matchStrings_self (t : Topo) :
+    matchStrings t (extractPatterns t.strings) = extractPatterns t.strings := by
+  unfold matchStrings
+  refine List.filter_eq_self.mpr (fun p hp => ?_)
+  obtain ⟨lit, hlit, rfl⟩ := mem_extractPatterns hp
+  refine List.any_eq_true.mpr ⟨lit, hlit, containsSub_of_infix _ _ ?_⟩
+  unfold asciiLower
+  exact (trimQuotes_infix lit).map _
+
+private theorem ratAbs_zero : ratAbs 0 = 0 := by
+  unfold ratAbs; simp
+
+private theorem natCast_div_self {n : Nat} (h : n ≠ 0) : (n : Rat) / (n : Rat) = 1 :=
+  div_self (by exact_mod_cast h)
+
 /-- `strings.Contains s s` -/
-theorem containsSub_refl (s : Str) : containsSub s s = true := by
-  sorry
+theorem containsSub_refl (s : Str) : containsSub s s = true :=
+  containsSub_of_infix s s List.infix_rfl
 
 /-- Self match: MatchSignature(t, IndexFunction(t)) has confidence exactly 1 — whatever the
     hash value `H`, the default tolerance, and the cosmetic fields of the signature. -/
 theorem C05_self_match (H : Str) (t : Topo) (id name sev : Str) (tol : Rat) :
     (matchSignature H t (indexFunction H t id name sev) tol).conf = .val 1 := by
-  sorry
+  unfold matchSignature
+  have h12 : ¬ ((1 : Rat) / 2 = 0) := by norm_num
+  have h12' : (0 : Rat) ≤ 1 / 2 := by norm_num
+  simp only [indexFunction, matchCalls_self, matchStrings_self, sub_self, ratAbs_zero, h12, h12',
+    if_false, decide_true, if_true, zero_div, sub_zero]
+  generalize sortStrs (t.calls.map (·.1)) = R
+  generalize extractPatterns t.strings = P
+  rcases R with _ | ⟨a, R⟩ <;> rcases P with _ | ⟨b, P⟩
+  · norm_num [meanConf, sumConf, Conf.add, Conf.divNat]
+  · have hP : (((b :: P).length : Nat) : Rat) / (((b :: P).length : Nat) : Rat) = 1 :=
+      natCast_div_self (by simp)
+    simp only [hP]
+    norm_num [meanConf, sumConf, Conf.add, Conf.divNat]
+  · have hR : (((a :: R).length : Nat) : Rat) / (((a :: R).length : Nat) : Rat) = 1 :=
+      natCast_div_self (by simp)
+    simp only [hR]
+    norm_num [meanConf, sumConf, Conf.add, Conf.divNat]
+  · have hR : (((a :: R).length : Nat) : Rat) / (((a :: R).length : Nat) : Rat) = 1 :=
+      natCast_div_self (by simp)
+    have hP : (((b :: P).length : Nat) : Rat) / (((b :: P).length : Nat) : Rat) = 1 :=
+      natCast_div_self (by simp)
+    simp only [hR, hP]
+    norm_num [meanConf, sumConf, Conf.add, Conf.divNat]
 
 /-- Found by the alert pipeline of either backend: if the indexed signature is among the
     candidates, an alert with confidence 1 for it is raised at every threshold ≤ 1. -/
 theorem C05_found_in_alerts (H : Str) (t : Topo) (id name sev : Str) (cands : List Sig) (thr tol : Rat)
     (hthr : thr ≤ 1) (hmem : indexFunction H t id name sev ∈ cands) :
     ∃ r ∈ alertsOf H t cands thr tol, r.sigId = id ∧ r.conf = .val 1 := by
-  sorry
+  have hconf := C05_self_match H t id name sev tol
+  refine ⟨matchSignature H t (indexFunction H t id name sev) tol,
+    mem_alertsOf.mpr ⟨⟨_, hmem, rfl⟩, ?_⟩, ?_, hconf⟩
+  · rw [hconf]; simpa [Conf.ge] using hthr
+  · unfold matchSignature
+    simp only
+    split <;> rfl
 
 /-- JSON exact mode: some alert with confidence ≥ 0.99 is returned whenever the indexed signature
     is in the database (the first such signature in file order wins). -/
 theorem C05_found_exact_json (H : Str) (t : Topo) (id name sev : Str) (db : List Sig)
     (hmem : indexFunction H t id name sev ∈ db) :
     ∃ r, jsonScanExact H t db = some r ∧ r.conf.ge (99/100) = true := by
-  sorry
+  unfold jsonScanExact
+  have hsome : ((db.map (fun s => matchSignature H t s 0)).find?
+      (fun r => r.conf.ge (99/100))).isSome = true := by
+    rw [List.find?_isSome]
+    refine ⟨matchSignature H t (indexFunction H t id name sev) 0,
+      List.mem_map.mpr ⟨_, hmem, rfl⟩, ?_⟩
+    rw [C05_self_match]
+    simp only [Conf.ge, decide_eq_true_eq]
+    norm_num
+  obtain ⟨r, hr⟩ := Option.isSome_iff_exists.mp hsome
+  exact ⟨r, hr, List.find?_some (p := fun r : MatchResult => r.conf.ge (99/100)) hr⟩
 
 end Sfw
